@@ -29,6 +29,8 @@ pub struct Case {
     pub ignore_expected: bool,
     pub via_file: bool,
     pub io_faults: Vec<IoFault>,
+    /// inputs parsed before `input` with the *same parser value* (reuse)
+    pub seq_prefix: Vec<Vec<u8>>,
     /// what was done to the stream (descriptive)
     pub damage: String,
     /// short fault class for statistics
@@ -37,23 +39,30 @@ pub struct Case {
 
 impl Case {
     pub fn to_json(&self) -> Value {
-        let input = match std::str::from_utf8(&self.input) {
+        let enc = |b: &Vec<u8>| match std::str::from_utf8(b) {
             Ok(t) => json!({"text": t}),
-            Err(_) => json!({"hex": self.input.iter().map(|b| format!("{b:02x}")).collect::<String>()}),
+            Err(_) => json!({"hex": b.iter().map(|x| format!("{x:02x}")).collect::<String>()}),
         };
-        json!({"kind": "c15", "parser": self.parser, "layout": self.layout, "input": input, "damage": self.damage,
+        let input = enc(&self.input);
+        let prefix: Vec<Value> = self.seq_prefix.iter().map(enc).collect();
+        json!({"kind": "c15", "seq_prefix": prefix, "parser": self.parser, "layout": self.layout, "input": input, "damage": self.damage,
             "lexer_faults": self.faults.iter().map(|f| json!({"at_call": f.at_call, "kind": f.kind.name(), "param": f.param})).collect::<Vec<_>>(),
             "ignore_expected": self.ignore_expected, "via_file": self.via_file,
             "io_faults": self.io_faults.iter().map(|f| json!({"event": f.event, "kind": f.kind, "arg": f.arg})).collect::<Vec<_>>()})
     }
     pub fn from_json(v: &Value) -> Option<Case> {
-        let input = if let Some(t) = v["input"].get("text").and_then(|t| t.as_str()) {
-            t.as_bytes().to_vec()
-        } else {
-            let h = v["input"].get("hex")?.as_str()?;
-            (0..h.len() / 2).map(|i| u8::from_str_radix(&h[2 * i..2 * i + 2], 16).ok()).collect::<Option<Vec<u8>>>()?
+        let dec = |x: &Value| -> Option<Vec<u8>> {
+            if let Some(t) = x.get("text").and_then(|t| t.as_str()) {
+                Some(t.as_bytes().to_vec())
+            } else {
+                let h = x.get("hex")?.as_str()?;
+                (0..h.len() / 2).map(|i| u8::from_str_radix(&h[2 * i..2 * i + 2], 16).ok()).collect::<Option<Vec<u8>>>()
+            }
         };
+        let input = dec(&v["input"])?;
+        let seq_prefix: Vec<Vec<u8>> = v.get("seq_prefix").and_then(|a| a.as_array()).map(|a| a.iter().filter_map(dec).collect()).unwrap_or_default();
         Some(Case {
+            seq_prefix,
             parser: v["parser"].as_str()?.into(),
             layout: v["layout"].as_str()?.into(),
             input,
@@ -119,7 +128,16 @@ impl Runner {
                 s.arm(true);
             }
         }
-        let out = p.run(&case.input, &cfg);
+        let out = if case.seq_prefix.is_empty() {
+            p.run(&case.input, &cfg)
+        } else {
+            let mut all = case.seq_prefix.clone();
+            all.push(case.input.clone());
+            match p.run_seq(&all, &cfg).pop() {
+                Some(o) => o,
+                None => return None,
+            }
+        };
         if case.via_file {
             if let Some(s) = &self.shim {
                 s.arm(false);
@@ -234,6 +252,7 @@ pub fn subcases(p: &dyn ParserCase, sentence: &[u8], base: &RunOut, thorough: bo
         ignore_expected: false,
         via_file: false,
         io_faults: vec![],
+        seq_prefix: vec![],
         damage,
         fclass,
     };
@@ -448,6 +467,7 @@ fn run_item(r: &Runner, entries: &[Entry], item: &(usize, usize), thorough: bool
         ignore_expected: false,
         via_file: false,
         io_faults: vec![],
+        seq_prefix: vec![],
         damage: "none (fault-free baseline)".into(),
         fclass: "baseline",
     };
@@ -568,7 +588,8 @@ fn work(args: &Args, entries: &[Entry], w: usize, nw: usize) -> Value {
                 let p = &*r.registry[item.0];
                 let entry = entries.iter().find(|e| e.id == p.id()).unwrap();
                 let sentence = &entry.sentences[item.1];
-                let base_case = Case { parser: p.id().into(), layout: p.layout().into(), input: sentence.bytes.clone(), faults: vec![], ignore_expected: false, via_file: false, io_faults: vec![], damage: "none".into(), fclass: "baseline" };
+                let base_case = Case { parser: p.id().into(), layout: p.layout().into(), input: sentence.bytes.clone(), faults: vec![], ignore_expected: false, via_file: false, io_faults: vec![],
+        seq_prefix: vec![], damage: "none".into(), fclass: "baseline" };
                 let mut culprit = base_case.clone();
                 if k > 0 {
                     // re-enumerate up to k in a child that only counts (it never parses)
@@ -591,8 +612,116 @@ fn work(args: &Args, entries: &[Entry], w: usize, nw: usize) -> Value {
             }
         }
     }
+    // parser reuse: one parser value, a seeded sequence of inputs
+    let n_items = all.len();
+    for pi in 0..r.registry.len() {
+        let idx = n_items + pi;
+        if idx % nw != w {
+            continue;
+        }
+        let res = fork_collect(240_000, |wfd| {
+            let v = run_seq_item(&r, entries, pi, thorough, args.seed, idx as u64);
+            let s = v.to_string();
+            let b = s.as_bytes();
+            let mut off = 0usize;
+            unsafe {
+                while off < b.len() {
+                    let n = libc::write(wfd, b[off..].as_ptr() as *const libc::c_void, b.len() - off);
+                    if n <= 0 {
+                        break;
+                    }
+                    off += n as usize;
+                }
+                libc::_exit(0);
+            }
+        });
+        match res {
+            Ok(text) => {
+                if let Ok(v) = serde_json::from_str::<Value>(&text) {
+                    report::merge(&mut merged, &v);
+                }
+            }
+            Err(end) => {
+                let p = &*r.registry[pi];
+                let (class, what) = match end {
+                    ChildEnd::Timeout => ("hang", "a parse in a reuse sequence did not return".to_string()),
+                    ChildEnd::Abort(m) => ("abort", format!("the process died during a reuse sequence: {m}")),
+                };
+                let case = Case { parser: p.id().into(), layout: p.layout().into(), input: vec![], faults: vec![], ignore_expected: false, via_file: false, io_faults: vec![], seq_prefix: vec![], damage: "parser reuse sequence (not isolated)".into(), fclass: "reuse" };
+                let v = Violation { property: "C15".into(), class: class.into(), key: format!("{class}|{}", p.id()), what: format!("{what} [{} {}]", p.id(), p.layout()), case: case.to_json(), index: idx as u64 };
+                report::merge(&mut merged, &json!({"violations": [v.to_json()]}));
+            }
+        }
+    }
     r.cleanup();
     merged
+}
+
+/// Inputs a reuse sequence is drawn from: the entry's sentences (valid and
+/// invalid) and simple damaged variants.
+pub fn reuse_pool(entry: &Entry) -> Vec<(Vec<u8>, String)> {
+    let mut pool: Vec<(Vec<u8>, String)> = vec![(vec![], "empty input".into()), (b"  \n ".to_vec(), "whitespace only".into())];
+    for (i, s) in entry.sentences.iter().enumerate() {
+        pool.push((s.bytes.clone(), format!("sentence {i}")));
+        let mid = s.bytes.len() / 2;
+        let mut cut = mid;
+        while cut > 0 && std::str::from_utf8(&s.bytes[..cut]).is_err() {
+            cut -= 1;
+        }
+        pool.push((s.bytes[..cut].to_vec(), format!("sentence {i} torn at {cut}")));
+        let mut g = s.bytes[..cut].to_vec();
+        g.extend_from_slice("\u{1}§".as_bytes());
+        g.extend_from_slice(&s.bytes[cut..]);
+        pool.push((g, format!("sentence {i} with garbage at {cut}")));
+        let mut d = s.bytes.clone();
+        d.extend_from_slice(b" ");
+        d.extend_from_slice(&s.bytes);
+        pool.push((d, format!("sentence {i} twice")));
+        let mut sp = b"\n\t ".to_vec();
+        sp.extend_from_slice(&s.bytes);
+        sp.extend_from_slice("\u{a0}\n".as_bytes());
+        pool.push((sp, format!("sentence {i} padded")));
+    }
+    pool
+}
+
+fn run_seq_item(r: &Runner, entries: &[Entry], pi: usize, thorough: bool, seed: u64, idx: u64) -> Value {
+    let p = &*r.registry[pi];
+    let mut st = Stats::default();
+    let mut viol = vec![];
+    let entry = match entries.iter().find(|e| e.id == p.id()) {
+        Some(e) if !e.sentences.is_empty() && !p.bytes_input() => e,
+        _ => return json!({"stats": st.to_json(), "violations": viol}),
+    };
+    let pool = reuse_pool(entry);
+    let mut rng = Rng::new(sub_seed(seed, 1515, fnv64(p.id().as_bytes()) ^ fnv64(p.layout().as_bytes())));
+    for _ in 0..if thorough { 150 } else { 12 } {
+        let len = rng.range(2, 5);
+        let seq: Vec<&(Vec<u8>, String)> = (0..len).map(|_| rng.pick(&pool)).collect();
+        // every prefix of the sequence is a case: (inputs before, input)
+        let inputs: Vec<Vec<u8>> = seq.iter().map(|x| x.0.clone()).collect();
+        let outs = p.run_seq(&inputs, &RunCfg::default());
+        for (k, o) in outs.iter().enumerate() {
+            let case = Case {
+                parser: p.id().into(),
+                layout: p.layout().into(),
+                input: inputs[k].clone(),
+                faults: vec![],
+                ignore_expected: false,
+                via_file: false,
+                io_faults: vec![],
+                seq_prefix: inputs[..k].to_vec(),
+                damage: format!("parser value reused: {} after [{}]", seq[k].1, seq[..k].iter().map(|x| x.1.clone()).collect::<Vec<_>>().join(", ")),
+                fclass: "reuse",
+            };
+            record(r, &mut st, &case, o, &mut viol, idx);
+            if matches!(o.out, Out::Panic(_) | Out::Budget) {
+                break;
+            }
+        }
+    }
+    let digests = std::mem::take(&mut st.digests);
+    json!({"stats": st.to_json(), "violations": viol, "digests": digests})
 }
 
 /// Runs one case in its own forked child (used to survive aborts).
@@ -650,6 +779,17 @@ pub fn minimise(r: &Runner, case: &Case, key: &str) -> Case {
     while i < cur.faults.len() {
         let mut c = cur.clone();
         c.faults.remove(i);
+        if still_fails(r, &c, key) {
+            cur = c;
+        } else {
+            i += 1;
+        }
+    }
+    // drop inputs parsed before with the same parser value
+    let mut i = 0;
+    while i < cur.seq_prefix.len() {
+        let mut c = cur.clone();
+        c.seq_prefix.remove(i);
         if still_fails(r, &c, key) {
             cur = c;
         } else {
